@@ -94,7 +94,8 @@ func strCapitalizeFunc(_ *ctx.EvalCtx, receiver object.Object, _ ...object.Objec
 		return &object.Str{Value: ""}, nil
 	}
 
-	newVal := strings.ToUpper(val[:1]) + val[1:]
+	first, size := utf8.DecodeRuneInString(val)
+	newVal := strings.ToUpper(string(first)) + val[size:]
 
 	return &object.Str{Value: newVal}, nil
 }
@@ -155,6 +156,10 @@ func strTruncateFunc(_ *ctx.EvalCtx, receiver object.Object, args ...object.Obje
 		return &object.Str{Value: val}, nil
 	}
 
+	if limit < 0 {
+		limit = 0
+	}
+
 	ellipsis := "..."
 
 	if len(args) > 1 {
@@ -168,7 +173,7 @@ func strTruncateFunc(_ *ctx.EvalCtx, receiver object.Object, args ...object.Obje
 		}
 	}
 
-	newVal := val[:firstArg.Value] + ellipsis
+	newVal := string([]rune(val)[:limit]) + ellipsis
 
 	return &object.Str{Value: newVal}, nil
 }
@@ -204,7 +209,7 @@ func strAtFunc(_ *ctx.EvalCtx, receiver object.Object, args ...object.Object) (o
 		index = len(chars) + index
 	}
 
-	if index >= len(chars) {
+	if index < 0 || index >= len(chars) {
 		return &object.Nil{}, nil
 	}
 
@@ -271,6 +276,11 @@ func strRepeatFunc(_ *ctx.EvalCtx, receiver object.Object, args ...object.Object
 	firstArg, ok := args[0].(*object.Int)
 
 	if !ok {
+		msg := fmt.Sprintf(fail.ErrFuncFirstArgInt, "repeat", object.STR_OBJ)
+		return nil, errors.New(msg)
+	}
+
+	if firstArg.Value < 0 {
 		msg := fmt.Sprintf(fail.ErrFuncFirstArgInt, "repeat", object.STR_OBJ)
 		return nil, errors.New(msg)
 	}
